@@ -24,8 +24,30 @@ X = r"\.0\(%s\)" % U
 Y = r"\.1\(%s\)" % U
 
 
+VOCAB = {"var_names_union", "is_zero", "is_one", "zero", "one", "var_names_like_other", "operate_bin", "operate_unary", "from_num",
+         "find_op", "find_bin_op", "find_unary_op", "bin", "unary", "repr", "to_deepex", "from_deepex", "compile", "new"}
+
+
 class _P(Policy):
-    max_depth = 3
+    """Crate-local helpers that are not part of the rule's vocabulary are inlined (so extracting or inlining a helper is
+    invisible); loops are widened."""
+    max_depth = 5
+    loop_mode = "widen"
+
+    def inline(self, fn, args, interp, path):
+        return fn.get("name") not in VOCAB
+
+
+def decided_some(p, pattern):
+    """The path took the Some/Ok branch of a value matching `pattern` (match, `?`, or an Option/Result combinator)."""
+    rx = re.compile(pattern)
+    for d in p.decisions:
+        s = show(d[1])
+        if d[0] == "try" and d[2] == "ok" and rx.search(s):
+            return True
+        if d[0] == "switch" and d[2] in ("Some", "Ok") and s.startswith("discr(") and rx.search(s):
+            return True
+    return False
 
 
 def classify_cond(s, label):
@@ -90,7 +112,7 @@ def run(ctx):
         good = True
         seen_op = False
         for p in ps:
-            if p.status == "unreachable":
+            if p.status in ("unreachable", "loop-pruned"):
                 continue
             if p.status != "return":
                 chk.unrecognised("R10.1", "shape:%s" % op, "%s %s" % (p.status, p.note), loc(b["span"]))
@@ -175,26 +197,33 @@ def run(ctx):
         if len(bs) != 1:
             chk.violation("R10.3", "anchor:%s" % fname, "%s not found" % fname)
             continue
-        ps = Interp(fb, _P()).run(bs[0], [Sym("repr"), Sym("ops")])
+        ps = [p for p in Interp(fb, _P()).run(bs[0], [Sym("repr"), Sym("ops")]) if p.status not in ("unreachable", "loop-pruned")]
         oks = [p for p in ps if p.status == "return" and isinstance(p.result, Variant) and p.result.variant == "Ok"]
-        lookup = r"^std::option::Option::<T>::ok_or_else\(expression::deep::find_op\(repr, ops\), closure<\{closure#\d+\}>\)$"
-        good = bool(oks) and all(any(d[0] == "try" and d[2] == "ok" and re.match(lookup, show(d[1])) for d in p.decisions) for p in oks)
+        lookup = r"expression::deep::find_op\(repr, ops\)"
+        good = bool(oks) and all(decided_some(p, lookup) for p in oks)
         errs = [p for p in ps if p.status == "return" and isinstance(p.result, Variant) and p.result.variant == "Err"]
-        if good and errs and all(p.status in ("return", "unreachable") for p in ps):
+        if good and errs and all(p.status == "return" for p in ps):
             chk.ok("R10.3", "%s: unknown name => Err" % fname, "%d ok / %d err paths" % (len(oks), len(errs)), loc(bs[0]["span"]))
+        elif any(p.status != "return" for p in ps):
+            chk.unrecognised("R10.3", "shape:%s" % fname, "%s" % [(p.status, p.note) for p in ps if p.status != "return"][:2], loc(bs[0]["span"]))
         else:
             chk.violation("R10.3", "unknown-name:%s" % fname, "%s can return Ok without a successful lookup of the operator name" % fname, loc(bs[0]["span"]))
     fo = fb.find_bodies(lambda b: b["kind"] == "Fn" and b["path"].endswith("deep::find_op"))
     if len(fo) == 1:
         good = False
+        EQ = r"^std::cmp::PartialEq::eq\(operators::Operator::<'a, T>::repr\((.*)\), (\.cap:repr\(env\)|repr)\)$|^std::cmp::PartialEq::eq\((\.cap:repr\(env\)|repr), operators::Operator::<'a, T>::repr\((.*)\)\)$"
+        # idiom (i): a predicate closure handed to Iterator::find / position
         for cp in fb.closures_of(fo[0]["path"]):
             cb = fb.bodies[cp]
-            ps = Interp(fb, _P()).run(cb, [Sym("env"), Sym("cand")])
-            if len(ps) == 1 and ps[0].status == "return":
-                s = show(ps[0].result)
-                if re.match(r"^std::cmp::PartialEq::eq\(operators::Operator::<'a, T>::repr\(\.1\(cand\)\), \.cap:repr\(env\)\)$", s) or \
-                        re.match(r"^std::cmp::PartialEq::eq\(\.cap:repr\(env\), operators::Operator::<'a, T>::repr\(\.1\(cand\)\)\)$", s):
-                    good = True
+            ps = [p for p in Interp(fb, _P()).run(cb, [Sym("env"), Sym("cand")]) if p.status == "return"]
+            if len(ps) == 1 and re.match(EQ, show(ps[0].result)):
+                good = True
+        # idiom (ii): an explicit loop that returns the element whose name equals the requested one
+        if not good:
+            ps = [p for p in Interp(fb, _P()).run(fo[0], [Sym("repr"), Sym("ops")]) if p.status == "return"]
+            somes = [p for p in ps if isinstance(p.result, Variant) and p.result.variant == "Some"]
+            if somes and all(any(d[2] is True and re.match(EQ, show(d[1])) for d in p.decisions) for p in somes):
+                good = True
         if good:
             chk.ok("R10.3", "find_op compares names for equality", "", loc(fo[0]["span"]))
         else:
@@ -226,8 +255,8 @@ def run(ctx):
         ps = Interp(fb, _P()).run(bs[0], args)
         oks = [p for p in ps if p.status == "return" and isinstance(p.result, Variant) and p.result.variant == "Ok"]
         look = "find_bin_op" if meth == "operate_bin" else "find_unary_op"
-        need = r"^expression::deep::%s\(repr, \.ops\(self_\)\)$" % look
-        if oks and all(any(d[0] == "try" and d[2] == "ok" and re.match(need, show(d[1])) for d in p.decisions) for p in oks):
+        need = r"expression::deep::%s\(repr, \.ops\(self_\)\)" % look
+        if oks and all(decided_some(p, need) for p in oks):
             chk.ok("R10.3", "DeepEx::%s looks the name up in its own operator list before applying" % meth, "", loc(bs[0]["span"]))
         else:
             chk.violation("R10.3", "apply-without-lookup:%s" % meth, "DeepEx::%s can succeed without a successful lookup of the name in its own operator list" % meth, loc(bs[0]["span"]))
